@@ -81,6 +81,11 @@ EXPORT int fwprintf_s(FILE *restrict stream, const wchar_t *restrict fmt, ...) {
     va_list ap;
     int ret;
 
+    if (unlikely(stream == NULL)) {
+        invoke_safe_str_constraint_handler("fwprintf_s: stream is null", NULL,
+                                           ESNULLP);
+        return -(ESNULLP);
+    }
     if (unlikely(fmt == NULL)) {
         invoke_safe_str_constraint_handler("fwprintf_s: fmt is null", NULL,
                                            ESNULLP);
